@@ -91,9 +91,23 @@ func smlWorker(w *iso.Worker) {
 	shapes := map[string]bool{}
 	var m0, m1 runtime.MemStats
 	ast.VerifCountListWalks = true // hook H4: this worker is single-goroutine
+	// what the library keeps reachable between calls is measured over the whole batch (the batch itself is loaded already)
+	runtime.GC()
+	runtime.GC()
+	runtime.ReadMemStats(&m0)
+	heapBefore := m0.HeapAlloc
+	maxIn := 0
+	// the result of the previous successful call is kept and read again after the next call: it still is every
+	// message of ITS input, in order
+	var prevMsgs []*ast.DataMessage
+	var prevHeaders []string
+	prevIdx := -1
 	for i, j := range w.Jobs {
 		w.Begin(i)
 		in := string(j.Input)
+		if len(in) > maxIn {
+			maxIn = len(in)
+		}
 		last = stepStats{}
 		ast.VerifListWalks = 0
 		ast.VerifListWalkBudget = listWalkBudget(len(in))
@@ -119,6 +133,21 @@ func smlWorker(w *iso.Worker) {
 				names = append(names, m.Name())
 			}
 			errs, warns = e, wn
+			if prevMsgs != nil {
+				for k, m := range prevMsgs {
+					if h := m.Header(); h != prevHeaders[k] {
+						w.Report(iso.Finding{Index: prevIdx, Sig: "C06/earlier-result-changed-by-a-later-parse", What: fmt.Sprintf("message %d returned for input %d had header %q; after input %d was parsed the same slice element has header %q", k, prevIdx, prevHeaders[k], i, h), Family: w.Jobs[prevIdx].Family})
+						break
+					}
+				}
+				w.Classes["earlier-result-re-read"]++
+			}
+			if len(e) == 0 && len(msgs) > 0 && len(msgs) <= 64 {
+				prevMsgs, prevHeaders, prevIdx = msgs, prevHeaders[:0:0], i
+				for _, m := range msgs {
+					prevHeaders = append(prevHeaders, m.Header())
+				}
+			}
 		}()
 		runtime.ReadMemStats(&m1)
 		w.Classes["family/"+j.Family]++
@@ -213,6 +242,15 @@ func smlWorker(w *iso.Worker) {
 			}
 		}
 		w.End(i)
+	}
+	prevMsgs, prevHeaders = nil, nil
+	runtime.GC()
+	runtime.GC()
+	runtime.ReadMemStats(&m1)
+	grown := int64(m1.HeapAlloc) - int64(heapBefore)
+	w.Max("retained_heap_growth_MiB_over_the_batch", float64(grown)/(1<<20))
+	if limit := int64(32<<20) + 2*int64(maxIn); grown > limit && len(w.Jobs) > 0 {
+		w.Report(iso.Finding{Index: len(w.Jobs) - 1, Sig: "C06/memory-retained-across-calls", What: fmt.Sprintf("after %d calls and two collections the live heap is %d MiB larger than before the first call (limit 32 MiB + 2 x the longest input, %d bytes): what earlier calls allocated stays reachable", len(w.Jobs), grown>>20, maxIn), Family: w.Jobs[len(w.Jobs)-1].Family})
 	}
 }
 
@@ -580,6 +618,21 @@ func runC06(c *ctx) {
 		jobs = next
 	}
 
+	// a long run in ONE worker process: hundreds of sizeable inputs, each with variable names no earlier input used, and
+	// interleaved small valid texts whose results are re-read after the next call (what the package remembers between
+	// calls must stay bounded, and must not be what it has handed out)
+	{
+		var hist []iso.Job
+		pad := strings.Repeat("x", c.pick(256<<10, 512<<10))
+		for i := 0; i < c.pick(220, 600); i++ {
+			t := fmt.Sprintf("S6F11 W H->E run%d\n<L\n  <U4 fresh_%d_a>\n  <A \"%s\">\n  <L <F4 fresh_%d_b> other_%d ...>\n> .\n", i, i, pad, i, i)
+			hist = append(hist, iso.Job{Input: []byte(t), Family: "long-run-in-one-process", Meta: fmt.Sprintf("run%d", i)})
+			small := fmt.Sprintf("S1F%d W H->E first%d <L <U1 %d>> .\nS2F%d H<-E second%d .", 2*(i%100)+1, i, i%256, 2*(i%50), i)
+			hist = append(hist, iso.Job{Input: []byte(small), Family: "long-run-in-one-process", Meta: fmt.Sprintf("first%d\x00second%d", i, i)})
+		}
+		account(hist)
+		c06RunPool(c, exe, work, 900, hist, 1, 4<<20)
+	}
 	probeWG.Wait()
 	c.Eval(int64(probeOut.Processed))
 	for _, f := range probeOut.Findings {
@@ -613,7 +666,7 @@ func runC06(c *ctx) {
 		shapeList = shapeList[:120]
 	}
 	c.Extra["diagnostic_shapes"] = shapeList
-	c.Required = []string{"family/token-soup", "family/valid-sequence", "family/mutated-valid", "family/random-bytes", "family/duplicate-variable", "family/exotic-space", "family/hostile-fragment", "family/nesting", "family/nest-with-content", "family/coverage-guided", "hook-reached", "hook-H4-reached", "accepted", "rejected", "order-checked"}
+	c.Required = []string{"family/token-soup", "family/valid-sequence", "family/mutated-valid", "family/random-bytes", "family/duplicate-variable", "family/exotic-space", "family/hostile-fragment", "family/nesting", "family/nest-with-content", "family/coverage-guided", "family/long-run-in-one-process", "earlier-result-re-read", "hook-reached", "hook-H4-reached", "accepted", "rejected", "order-checked"}
 }
 
 func replayC06(c *ctx, raw json.RawMessage) {
